@@ -439,6 +439,46 @@ func c17Faults(r *rng.R, base *c17Spec) []*c17Fault {
 	addLex("undefined-emit-target", func(s *c17Spec, m map[*c17Decl]*c17Decl) (*c17Decl, []*c17Decl) {
 		return &c17Decl{Kind: "frag", Lines: []string{"@frag '~u~' @emit(NO_SUCH_TOKEN)"}}, nil
 	})
+	// ---- references to a name that exists but is not of the kind referred to -----
+	for _, wk := range []struct{ kind, what string }{{"token", "token"}, {"macro", "macro"}, {"rule", "rule"}} {
+		wk := wk
+		pool := map[string][]*c17Decl{"token": tokens, "macro": macros, "rule": rules}[wk.kind]
+		if len(pool) == 0 {
+			continue
+		}
+		addLex("push-mode-names-a-"+wk.what, func(s *c17Spec, m map[*c17Decl]*c17Decl) (*c17Decl, []*c17Decl) {
+			return &c17Decl{Kind: "frag", Lines: []string{"@frag '~w~' @push_mode(" + pickDecl(r, pool).Name + ")"}}, nil
+		})
+	}
+	for _, wk := range []struct{ what, name string }{{"macro", ""}, {"mode", "Str"}, {"rule", ""}} {
+		wk := wk
+		name := wk.name
+		if wk.what == "macro" && len(macros) > 0 {
+			name = pickDecl(r, macros).Name
+		}
+		if wk.what == "rule" && len(rules) > 0 {
+			name = pickDecl(r, rules).Name
+		}
+		if name == "" {
+			continue
+		}
+		addLex("emit-names-a-"+wk.what, func(s *c17Spec, m map[*c17Decl]*c17Decl) (*c17Decl, []*c17Decl) {
+			return &c17Decl{Kind: "frag", Lines: []string{"@frag '~w~' @emit(" + name + ")"}}, nil
+		})
+		if wk.what != "macro" {
+			addLex("lexer-expression-names-a-"+wk.what, func(s *c17Spec, m map[*c17Decl]*c17Decl) (*c17Decl, []*c17Decl) {
+				return &c17Decl{Kind: "token", Name: "FRESH_TOK", Lines: []string{"FRESH_TOK = '~w~' " + name + "+"}}, nil
+			})
+		}
+		if wk.what != "rule" {
+			addRule("rule-names-a-"+wk.what, func(s *c17Spec, m map[*c17Decl]*c17Decl) (*c17Decl, []*c17Decl) {
+				return &c17Decl{Kind: "rule", Name: "fresh_rule", Lines: []string{"fresh_rule = " + someTok().Name + " " + name}}, nil
+			})
+		}
+	}
+	addLex("lexer-expression-names-a-token", func(s *c17Spec, m map[*c17Decl]*c17Decl) (*c17Decl, []*c17Decl) {
+		return &c17Decl{Kind: "token", Name: "FRESH_TOK", Lines: []string{"FRESH_TOK = '~w~' " + someTok().Name + "+"}}, nil
+	})
 	{ // ambiguous literal: two tokens with the same literal, referenced by literal
 		s, _ := base.clone()
 		a := pickDecl(r, s.lexAnchors(false))
